@@ -170,20 +170,22 @@ theorem C19_insertSortedUnique (xs : List Int) (x : Int) (hx : xs.Pairwise (· <
 
 /-- vector Add on equal lengths: same length, element-wise sums -/
 theorem C19_vadd (u v : List Int) (hl : u.length = v.length) :
-    ∃ w, vadd u v = some w ∧ w.length = u.length ∧
-      ∀ i a b, u[i]? = some a → v[i]? = some b → w[i]? = some (a + b) := by
+    ∃ w : List Int, vadd u v = some w ∧ w.length = u.length ∧
+      ∀ (i : Nat) (a b : Int), u[i]? = some a → v[i]? = some b → w[i]? = some (a + b) := by
   refine ⟨List.zipWith (· + ·) u v, by simp [vadd, hl], by simp [hl], ?_⟩
   intro i a b ha hb
   simp [List.getElem?_zipWith, ha, hb]
 
 /-- vector Lsh: same length, every element multiplied by 2^s -/
 theorem C19_vlsh (v : List Int) (s : Nat) :
-    (vlsh v s).length = v.length ∧ ∀ i a, v[i]? = some a → (vlsh v s)[i]? = some (a * (2 : Int) ^ s) := by
+    (vlsh v s).length = v.length ∧ ∀ (i : Nat) (a : Int), v[i]? = some a → (vlsh v s)[i]? = some (a * (2 : Int) ^ s) := by
   refine ⟨by simp [vlsh], fun i a ha => ?_⟩
   simp [vlsh, ha]
 
 /-- non-vacuity -/
-example : hex "f_F".toList = some 255 ∧ extractI 0b110100 2 5 = 0b101 ∧ pow2UpTo 5 = [1, 2, 4] ∧
-    uniq [1, 1, 2, 1] = [1, 2, 1] ∧ mergeUnique [1, 3] [2, 3] = [1, 2, 3] := by decide
+example : hex "f_F".toList = some 255 ∧ hex "_".toList = none ∧ extractI 0b110100 2 5 = 0b101 ∧
+    uniq [1, 1, 2, 1] = [1, 2, 1] ∧ index 3 [5, 3, 3] = 1 ∧ isPow2 8 = true ∧ bitsSet 10 = [1, 3] := by decide
+example : pow2UpTo 5 = [1, 2, 4] := by simp [pow2UpTo, pow2Loop]
+example : mergeUnique [1, 3] [2, 3] = [1, 2, 3] := by simp [mergeUnique]
 
 end AC.Props.C19
